@@ -110,3 +110,21 @@ Theorem C20_join_conserves_exactly : forall st t c a1 a2 s k,
   exists st', step JOIN_TICKETS st = Ok st' /\ stack_mass k (stk st') = stack_mass k (stk st) /\ minted st' = minted st.
 Proof. exact join_conserves_exactly. Qed.
 Print Assumptions C20_join_conserves_exactly.
+
+(* maps and big_maps (finite maps with nat keys) holding tickets are part of the instruction set covered by
+   C20_mass_only_grows_by_TICKET (EMPTY_MAP / EMPTY_BIG_MAP, UPDATE, GET_AND_UPDATE, MEM, GET, ITER over maps).
+   GET and DUP / DUP n on a map whose value type contains a ticket are refused (what defect #50 violated) ... *)
+Theorem C20_map_of_tickets_get_dup_rejected : forall st k big vt m s, ty_has_ticket vt = true ->
+  (stk st = VNat k :: VMap big vt m :: s -> step GET st = Reject) /\
+  (stk st = VMap big vt m :: s -> step DUP st = Reject) /\
+  (forall n, nth_error (stk st) n = Some (VMap big vt m) -> step (DUPN (S n)) st = Reject).
+Proof. exact map_of_tickets_get_dup_rejected. Qed.
+Print Assumptions C20_map_of_tickets_get_dup_rejected.
+
+(* ... and GET_AND_UPDATE k None moves the value out: a second one on the same key finds nothing *)
+Theorem C20_get_and_update_moves : forall st k t big vt m s,
+  stk st = VNat k :: VNone t :: VMap big vt m :: s ->
+  step GET_AND_UPDATE st = Ok (with_stk st (opt_of vt (map_get k m) :: VMap big vt (map_remove k m) :: s)) /\
+  map_get k (map_remove k m) = None.
+Proof. exact get_and_update_moves. Qed.
+Print Assumptions C20_get_and_update_moves.
